@@ -7,13 +7,14 @@ STUBS = """
 /* Result: probe result type; one storage is tracked (the AsyncTask's retValue member), every other Result is the caller's
  * own live object.  UserFn / VoidFn: probe callables counting their executions. */
 void *g_rs; _Bool g_rlive; unsigned g_rctors, g_rdtors;
+_Bool g_rmoved;   /* ghost: the tracked storage has been MOVED FROM (a heap-owning result type would now be empty) */
 unsigned g_user_calls, g_void_calls; int g_user_v;
 void result_ctor_default(Result *self) { if (self == g_rs) { __CPROVER_assert(!g_rlive, "RESULT constructed over a live object"); g_rlive = 1; g_rctors++; } self->v = 0; }
 void result_ctor_copy(Result *self, Result *o) { __CPROVER_assert(o != g_rs || g_rlive, "RESULT copied FROM storage that holds no live object"); if (self == g_rs) { __CPROVER_assert(!g_rlive, "RESULT constructed over a live object"); g_rlive = 1; g_rctors++; } self->v = o->v; }
-void result_ctor_move(Result *self, Result *o) { __CPROVER_assert(o != g_rs || g_rlive, "RESULT moved FROM storage that holds no live object"); if (self == g_rs) { __CPROVER_assert(!g_rlive, "RESULT constructed over a live object"); g_rlive = 1; g_rctors++; } self->v = o->v; }
+void result_ctor_move(Result *self, Result *o) { __CPROVER_assert(o != g_rs || g_rlive, "RESULT moved FROM storage that holds no live object"); if (self == g_rs) { __CPROVER_assert(!g_rlive, "RESULT constructed over a live object"); g_rlive = 1; g_rctors++; } if (o == g_rs) g_rmoved = 1; self->v = o->v; }
 void result_dtor(Result *self) { if (self == g_rs) { __CPROVER_assert(g_rlive, "RESULT destroyed but no live object (double destruction)"); g_rlive = 0; g_rdtors++; } }
 Result *result_assign_copy(Result *self, Result *o) { __CPROVER_assert(self != g_rs || g_rlive, "RESULT assigned INTO storage that holds no live object (result written before it is constructed)"); __CPROVER_assert(o != g_rs || g_rlive, "RESULT assigned FROM storage that holds no live object"); self->v = o->v; return self; }
-Result *result_assign_move(Result *self, Result *o) { __CPROVER_assert(self != g_rs || g_rlive, "RESULT assigned INTO storage that holds no live object (result written before it is constructed)"); __CPROVER_assert(o != g_rs || g_rlive, "RESULT assigned FROM storage that holds no live object"); self->v = o->v; return self; }
+Result *result_assign_move(Result *self, Result *o) { __CPROVER_assert(self != g_rs || g_rlive, "RESULT assigned INTO storage that holds no live object (result written before it is constructed)"); __CPROVER_assert(o != g_rs || g_rlive, "RESULT assigned FROM storage that holds no live object"); if (o == g_rs) g_rmoved = 1; self->v = o->v; return self; }
 Result userfn_call(UserFn *f) { Result r; g_user_calls++; r.v = g_user_v; return r; }
 void voidfn_call(VoidFn *f) { g_void_calls++; }
 """
@@ -33,13 +34,13 @@ void verif_tg_wait(verif_task_group *g)
 }
 void verif_tg_dtor(verif_task_group *g) { __CPROVER_assert(!g->pending, "TASKGROUP destroyed while its task has not finished (tbb::missing_wait)"); }
 """
-G = ["g_rlive", "g_rctors", "g_rdtors", "g_user_calls", "g_void_calls"]
+G = ["g_rlive", "g_rctors", "g_rdtors", "g_user_calls", "g_void_calls", "g_rmoved"]
 
 
 def task_state(finished_nondet=True):
     return """
   UserFn the_user; function_R the_fn; the_fn.obj = &the_user; the_fn.tag = 1;
-  g_rs = &o_@0.retValue; g_rlive = 0; g_rctors = 0; g_rdtors = 0; g_user_calls = 0; g_void_calls = 0; g_user_v = nondet_int();
+  g_rs = &o_@0.retValue; g_rmoved = 0; g_rlive = 0; g_rctors = 0; g_rdtors = 0; g_user_calls = 0; g_void_calls = 0; g_user_v = nondet_int();
 """
 
 
@@ -66,7 +67,8 @@ def units():
     live = task_state() + "  o_@0.retValue.v = g_user_v; g_rlive = 1; o_@0.jobFinished.v = 1;\n"
     U.fn("at_finished", pre_call=live, ensures={"finished_reads_the_completion_flag": "RET == ($0->jobFinished.v != 0)"})
     U.fn("at_get", pre_call=live, requires=[REG, "g_rlive != 0", "$0->jobFinished.v != 0"], assigns=G, ensures={
-        "get_yields_exactly_the_stored_result": "RET.v == $0->retValue.v", "get_does_not_consume_the_result": "g_rlive != 0 && g_rdtors == OLD(g_rdtors)"})
+        "get_yields_exactly_the_stored_result": "RET.v == $0->retValue.v", "get_does_not_consume_the_result": "g_rlive != 0 && g_rdtors == OLD(g_rdtors)",
+        "get_leaves_the_stored_result_intact_for_later_reads": "g_rmoved == 0 && $0->retValue.v == OLD($0->retValue.v)"})
     U.fn("at_dtor", pre_call=live, requires=[REG, "g_rlive != 0"], assigns=["*$0"] + G, ensures={
         "destructor_destroys_the_result_exactly_once": "g_rlive == 0 && g_rdtors == OLD(g_rdtors) + 1"})
     U.fn("sched_schedule", pre_call="  g_void_calls = 0;\n", requires=["g_void_calls == 0"], assigns=G, ensures={"scheduled_function_runs_exactly_once__synchronous_backend": "g_void_calls == 1"})
@@ -108,7 +110,7 @@ def units():
     tstate = """
   UserFn the_user; function_R the_fn; the_fn.obj = &the_user; the_fn.tag = 1;
   at_ctor__lambda1 the_closure; the_closure.__cap0 = &o_@0; the_closure.__cap1 = the_fn;
-  g_rs = &o_@0.retValue; g_rctors = 1; g_rdtors = 0; g_void_calls = 0; g_user_v = nondet_int(); g_tg_waits = 0; g_rlive = 1;
+  g_rs = &o_@0.retValue; g_rmoved = 0; g_rctors = 1; g_rdtors = 0; g_void_calls = 0; g_user_v = nondet_int(); g_tg_waits = 0; g_rlive = 1;
   _Bool in_pending = nondet__Bool();
   o_@0.taskImpl.taskGroup.fn.obj = &the_closure; o_@0.taskImpl.taskGroup.fn.tag = 1; o_@0.taskImpl.taskGroup.pending = in_pending;
   o_@0.jobFinished.v = !in_pending; g_user_calls = in_pending ? 0 : 1; o_@0.retValue.v = in_pending ? 0 : g_user_v;
@@ -120,10 +122,12 @@ def units():
     DONE = "$0->taskImpl.taskGroup.pending == 0 && $0->jobFinished.v != 0 && g_user_calls == 1 && $0->retValue.v == g_user_v && g_rlive != 0"
     T.fn("at_wait", pre_call=tstate, requires=TINV, assigns=TA, ensures={
         "wait_joins_the_backend_task": "g_tg_waits == OLD(g_tg_waits) + 1", "after_wait_the_function_has_run_exactly_once_and_the_result_is_complete": DONE,
-        "wait_neither_constructs_nor_destroys_the_result": "g_rdtors == OLD(g_rdtors) && g_rctors == OLD(g_rctors)"})
+        "wait_neither_constructs_nor_destroys_the_result": "g_rdtors == OLD(g_rdtors) && g_rctors == OLD(g_rctors)",
+        "wait_does_not_move_the_result_away": "g_rmoved == OLD(g_rmoved)"})
     T.fn("at_get", pre_call=tstate, requires=TINV, assigns=TA, ensures={
         "get_yields_exactly_the_value_the_function_returned": "RET.v == g_user_v && g_user_calls == 1",
-        "get_does_not_wait_when_already_finished": "IMP(OLD($0->jobFinished.v) != 0, g_tg_waits == OLD(g_tg_waits))"})
+        "get_does_not_wait_when_already_finished": "IMP(OLD($0->jobFinished.v) != 0, g_tg_waits == OLD(g_tg_waits))",
+        "get_leaves_the_stored_result_intact_for_later_reads": "g_rmoved == 0 && $0->retValue.v == g_user_v"})
     T.fn("at_dtor", pre_call=tstate, requires=TINV, assigns=TA, ensures={
         "destroying_an_AsyncTask_first_waits_for_its_task": "g_tg_waits == OLD(g_tg_waits) + 1 && g_user_calls == 1",
         "the_result_is_destroyed_exactly_once": "g_rlive == 0 && g_rdtors == OLD(g_rdtors) + 1"})
